@@ -1,7 +1,7 @@
 import Pcore.Proofs.LatMono
 set_option linter.unusedSimpArgs false
 set_option linter.unusedVariables false
-/-! C03: transitivity of `asg` on the fragment `Ty.TF` (stage 1). -/
+/-! C03: transitivity of `asg` on the fragment `Ty.TF` (Tuples included: stage 2). -/
 namespace Pcore.Lat
 variable (cfg : Cfg) (sfh : Bool)
 
@@ -354,6 +354,132 @@ theorem tr_scalarData (n : Nat) (ih : Trans cfg sfh n) (b c : Ty) (hw : Ty.scala
     · exact h2
   | _ => exact key h1
 
+/-! ### the positional types (Array, Tuple): one normal form for the four receiver rules -/
+def posTypes : Ty → List Ty
+  | .array e _ => [e]
+  | .tuple ts _ => if ts.isEmpty then [.any] else ts
+  | _ => []
+def posSize : Ty → Rng
+  | .array _ r => r
+  | .tuple ts g => tupleSize ts g
+  | _ => ⟨0, 0⟩
+def Ty.isPos : Ty → Bool
+  | .array _ _ | .tuple _ _ => true
+  | _ => false
+
+theorem posTypes_ne (t : Ty) (h : t.isPos = true) : posTypes t ≠ [] := by
+  cases t <;> simp [Ty.isPos] at h <;> simp [posTypes]
+  rename_i ts g
+  split <;> simp_all
+
+theorem tupZip_nonpos (as bs : List Ty) (k : Int) (hk : k ≤ 0) : tupZip cfg sfh as bs k = true := by
+  unfold tupZip; simp [hk]
+
+theorem tupZip_any_l (bs : List Ty) (k : Int) (hbs : bs ≠ []) : tupZip cfg sfh [.any] bs k = true := by
+  rw [tupZipL_iff cfg sfh .any bs k hbs]
+  intro j t _ _; exact asg_any_l cfg sfh t
+
+theorem tupZip_single (a b : Ty) (k : Int) : tupZip cfg sfh [a] [b] k = (decide (k ≤ 0) || asg cfg sfh a b) := by
+  unfold tupZip
+  by_cases hk : k ≤ 0 <;> simp [hk]
+
+/-- Array / Tuple against Array / Tuple: sizes, then the position loop over the normal forms -/
+theorem recv_pos (a b : Ty) (ha : a.isPos = true) (hb : b.isPos = true) :
+    asgRecv cfg sfh a b = ((posSize a).sub (posSize b) && tupZip cfg sfh (posTypes a) (posTypes b) (posSize b).hi) := by
+  cases a <;> simp [Ty.isPos] at ha <;> cases b <;> simp [Ty.isPos] at hb
+  · rename_i e r e' r'
+    unfold asgRecv; simp only [posSize, posTypes, tupZip_single]
+  · rename_i e r ts' g'
+    unfold asgRecv; simp only [posSize, posTypes]
+    congr 1
+    by_cases hz : (tupleSize ts' g').hi ≤ 0
+    · simp [hz, tupZip_nonpos]
+    · by_cases hts : ts'.isEmpty = true
+      · simp [hz, hts, tupZip_single]
+      · simp [hz, hts]
+  · rename_i ts g e' r'
+    unfold asgRecv; simp only [posSize, posTypes]
+    congr 1
+    by_cases hts : ts.isEmpty = true
+    · simp [hts, tupZip_any_l]
+    · simp only [hts, Bool.false_or, if_false]
+      by_cases hz : r'.hi = 0
+      · simp [hz, tupZip_nonpos]
+      · simp [hz]
+  · rename_i ts g ts' g'
+    unfold asgRecv; simp only [posSize, posTypes]
+    congr 1
+    by_cases hts : ts.isEmpty = true
+    · have hne : (if ts'.isEmpty = true then [Ty.any] else ts') ≠ [] := by split <;> simp_all
+      simp only [hts, if_true, Bool.true_or]
+      exact (tupZip_any_l cfg sfh _ _ hne).symm
+    · by_cases hts' : ts'.isEmpty = true <;> simp [hts, hts']
+
+/-- the position loop is transitive when the elements are (the second bound is the smaller one) -/
+theorem tupZip_trans (as bs cs : List Ty) (k1 k2 : Int) (hk : k2 ≤ k1) (has : as ≠ []) (hbs : bs ≠ []) (hcs : cs ≠ [])
+    (el : ∀ a ∈ as, ∀ b ∈ bs, ∀ c ∈ cs, asg cfg sfh a b = true → asg cfg sfh b c = true → asg cfg sfh a c = true)
+    (h1 : tupZip cfg sfh as bs k1 = true) (h2 : tupZip cfg sfh bs cs k2 = true) : tupZip cfg sfh as cs k2 = true := by
+  rw [tupZip_iff cfg sfh as bs k1 has hbs] at h1
+  rw [tupZip_iff cfg sfh bs cs k2 hbs hcs] at h2
+  rw [tupZip_iff cfg sfh as cs k2 has hcs]
+  intro i a c hi hmax ha hc
+  have la : 0 < as.length := List.length_pos_iff.2 has
+  have lb : 0 < bs.length := List.length_pos_iff.2 hbs
+  have lc : 0 < cs.length := List.length_pos_iff.2 hcs
+  have hbl : min i (bs.length - 1) < bs.length := by omega
+  have hb := List.getElem?_eq_getElem hbl
+  have hbm : bs[min i (bs.length - 1)] ∈ bs := List.getElem_mem hbl
+  have ham : a ∈ as := List.mem_of_getElem? ha
+  have hcm : c ∈ cs := List.mem_of_getElem? hc
+  apply el a ham _ hbm c hcm
+  · -- a against the b of position i
+    by_cases hm : i < max as.length bs.length
+    · exact h1 i a _ (by omega) hm ha hb
+    · have e1 : min (max as.length bs.length - 1) (as.length - 1) = min i (as.length - 1) := by omega
+      have e2 : min (max as.length bs.length - 1) (bs.length - 1) = min i (bs.length - 1) := by omega
+      apply h1 (max as.length bs.length - 1) a _ (by omega) (by omega)
+      · rw [e1]; exact ha
+      · rw [e2]; exact hb
+  · by_cases hm : i < max bs.length cs.length
+    · exact h2 i _ c hi hm hb hc
+    · have e1 : min (max bs.length cs.length - 1) (bs.length - 1) = min i (bs.length - 1) := by omega
+      have e2 : min (max bs.length cs.length - 1) (cs.length - 1) = min i (cs.length - 1) := by omega
+      apply h2 (max bs.length cs.length - 1) _ c (by omega) (by omega)
+      · rw [e1]; exact hb
+      · rw [e2]; exact hc
+
+theorem pos_elem (x : Ty) (hx : x.isPos = true) (t : Ty) (ht : t ∈ posTypes x) :
+    t.w < x.w ∧ (x.TF → t.TF) ∧ (Ty.WF cfg x → Ty.WF cfg t) := by
+  cases x <;> simp [Ty.isPos] at hx
+  · rename_i e r
+    simp only [posTypes, List.mem_singleton] at ht; subst ht
+    refine ⟨by simp [Ty.w], fun h => by unfold Ty.TF at h; exact h, fun h => by unfold Ty.WF at h; exact h⟩
+  · rename_i ts g
+    simp only [posTypes] at ht
+    by_cases hts : ts.isEmpty = true
+    · simp only [hts, if_true, List.mem_singleton] at ht; subst ht
+      refine ⟨by simp only [Ty.w]; omega, fun _ => by unfold Ty.TF; trivial, fun _ => by unfold Ty.WF; trivial⟩
+    · have ht' : t ∈ ts := by simpa [hts] using ht
+      refine ⟨by have := Ty.w_lt_wl ht'; simp only [Ty.w]; omega, fun h => by unfold Ty.TF at h; exact h t ht',
+        fun h => by unfold Ty.WF at h; exact h t ht'⟩
+
+/-- transitivity among the positional types, elements by the induction hypothesis -/
+theorem tr_pos (n : Nat) (ih : Trans cfg sfh n) (a b c : Ty) (pa : a.isPos = true) (pb : b.isPos = true) (pc : c.isPos = true)
+    (hw : a.w + b.w + c.w ≤ n + 1) (H : THyp cfg a b c)
+    (h1 : asgRecv cfg sfh a b = true) (h2 : asgRecv cfg sfh b c = true) : asgRecv cfg sfh a c = true := by
+  rw [recv_pos cfg sfh a b pa pb, Bool.and_eq_true] at h1
+  rw [recv_pos cfg sfh b c pb pc, Bool.and_eq_true] at h2
+  rw [recv_pos cfg sfh a c pa pc, Bool.and_eq_true]
+  refine ⟨Rng.sub_trans h1.1 h2.1, ?_⟩
+  have hk : (posSize c).hi ≤ (posSize b).hi := by
+    have := h2.1; simp [Rng.sub] at this; omega
+  apply tupZip_trans cfg sfh _ _ _ _ _ hk (posTypes_ne a pa) (posTypes_ne b pb) (posTypes_ne c pc) ?_ h1.2 h2.2
+  intro a' ha' b' hb' c' hc'
+  obtain ⟨wa', fa', _⟩ := pos_elem cfg a pa a' ha'
+  obtain ⟨wb', fb', wfb'⟩ := pos_elem cfg b pb b' hb'
+  obtain ⟨wc', fc', wfc'⟩ := pos_elem cfg c pc c' hc'
+  exact ih a' b' c' (by omega) ⟨fa' H.fa, fb' H.fb, fc' H.fc, wfb' H.wb, wfc' H.wc⟩
+
 theorem tr_coll (r : Rng) (b c : Ty) (fb : b.TF) (fc : c.TF)
     (h1 : asgRecv cfg sfh (.coll r) b = true) (h2 : asgRecv cfg sfh b c = true) : asgRecv cfg sfh (.coll r) c = true := by
   unfold asgRecv at h1
@@ -362,39 +488,32 @@ theorem tr_coll (r : Rng) (b c : Ty) (fb : b.TF) (fc : c.TF)
     all_goals exact Rng.sub_trans h1 h2
   · unfold asgRecv at h2 ⊢; cases c <;> simp only [] at h2 ⊢ <;> (first | contradiction | skip)
     · simp only [Bool.and_eq_true] at h2; exact Rng.sub_trans h1 h2.1
-    · unfold Ty.TF at fc; exact absurd fc id
+    · simp only [Bool.and_eq_true] at h2; exact Rng.sub_trans h1 h2.1
   · unfold asgRecv at h2 ⊢; cases c <;> simp only [] at h2 ⊢ <;> (first | contradiction | skip)
     · rw [Bool.and_eq_true] at h2; exact Rng.sub_trans h1 h2.1
     · unfold Ty.TF at fc; exact absurd fc id
+  · unfold asgRecv at h2 ⊢; cases c <;> simp only [] at h2 ⊢ <;> (first | contradiction | skip)
+    · simp only [Bool.and_eq_true] at h2; exact Rng.sub_trans h1 h2.1
+    · simp only [Bool.and_eq_true] at h2; exact Rng.sub_trans h1 h2.1
   · unfold Ty.TF at fb; exact absurd fb id
-  · unfold Ty.TF at fb; exact absurd fb id
+
+/-- what a positional receiver accepts (without decomposition) is positional -/
+theorem pos_closed (b c : Ty) (pb : b.isPos = true) (h : asgRecv cfg sfh b c = true) : c.isPos = true := by
+  cases b <;> simp [Ty.isPos] at pb
+  · unfold asgRecv at h; cases c <;> simp only [] at h <;> (first | contradiction | rfl)
+  · unfold asgRecv at h; cases c <;> simp only [] at h <;> (first | contradiction | rfl)
 
 theorem tr_array (n : Nat) (ih : Trans cfg sfh n) (e : Ty) (r : Rng) (b c : Ty) (hw : (Ty.array e r).w + b.w + c.w ≤ n + 1)
     (H : THyp cfg (.array e r) b c)
     (h1 : asgRecv cfg sfh (.array e r) b = true) (h2 : asgRecv cfg sfh b c = true) : asgRecv cfg sfh (.array e r) c = true := by
-  have fa := H.fa; unfold Ty.TF at fa
-  unfold asgRecv at h1
-  cases b <;> simp only [] at h1 <;> (first | contradiction | skip)
-  · rename_i e' r'
-    have fb := H.fb; unfold Ty.TF at fb
-    have wb := H.wb; unfold Ty.WF at wb
-    unfold asgRecv at h2 ⊢; cases c <;> simp only [] at h2 ⊢ <;> (first | contradiction | skip)
-    · rename_i e'' r''
-      have fc := H.fc; unfold Ty.TF at fc
-      have wc := H.wc; unfold Ty.WF at wc
-      simp only [Ty.w] at hw
-      rw [Bool.and_eq_true] at h1 h2 ⊢
-      refine ⟨Rng.sub_trans h1.1 h2.1, ?_⟩
-      by_cases hz : r''.hi ≤ 0
-      · simp [hz]
-      · have hz' : ¬ r'.hi ≤ 0 := by
-          have := h2.1; simp [Rng.sub] at this; omega
-        have h12 := h1.2; have h22 := h2.2
-        simp only [Bool.or_eq_true, decide_eq_true_eq] at h12 h22 ⊢
-        right
-        exact ih e e' e'' (by omega) ⟨fa, fb, fc, wb, wc⟩ (h12.resolve_left hz') (h22.resolve_left hz)
-    · have fc := H.fc; unfold Ty.TF at fc; exact absurd fc id
-  · have fb := H.fb; unfold Ty.TF at fb; exact absurd fb id
+  have pb : b.isPos = true := pos_closed cfg sfh _ b rfl h1
+  exact tr_pos cfg sfh n ih _ b c rfl pb (pos_closed cfg sfh b c pb h2) hw H h1 h2
+
+theorem tr_tuple (n : Nat) (ih : Trans cfg sfh n) (ts : List Ty) (g : Option Rng) (b c : Ty) (hw : (Ty.tuple ts g).w + b.w + c.w ≤ n + 1)
+    (H : THyp cfg (.tuple ts g) b c)
+    (h1 : asgRecv cfg sfh (.tuple ts g) b = true) (h2 : asgRecv cfg sfh b c = true) : asgRecv cfg sfh (.tuple ts g) c = true := by
+  have pb : b.isPos = true := pos_closed cfg sfh _ b rfl h1
+  exact tr_pos cfg sfh n ih _ b c rfl pb (pos_closed cfg sfh b c pb h2) hw H h1 h2
 
 theorem tr_hash (n : Nat) (ih : Trans cfg sfh n) (k v : Ty) (r : Rng) (b c : Ty) (hw : (Ty.hash k v r).w + b.w + c.w ≤ n + 1)
     (H : THyp cfg (.hash k v r) b c)
